@@ -30,10 +30,10 @@
 (*    caller "is a back-end provider for some other module, and must be    *)
 (*    unloaded after it"; module.h: "treated as a dependency of that       *)
 (*    module").  The construction-order sentence is about module_depends() *)
-(*    edges only (a provider that loads its consumer from inside its own   *)
-(*    constructor cannot be fully constructed first); contradictory        *)
-(*    declarations (see Consistent) and module_is_backend() are outside    *)
-(*    the contract and never generated.                                    *)
+(*    edges, and exempts a dependency whose own constructor encloses the   *)
+(*    module's (a provider that loads its consumer from inside its own     *)
+(*    constructor cannot be fully constructed first: Encloses);            *)
+(*    module_is_backend() is outside the contract and never generated.     *)
 (*  - All ordering sentences are scoped by "for every acyclic dependency   *)
 (*    graph", so they are required of GOOD cases only (needed part of the  *)
 (*    graph acyclic, every needed module loadable).                        *)
@@ -104,10 +104,6 @@ RECURSIVE Closure(_, _)
 Closure(c, S) == LET T == S \cup UNION {Succ(c, m) : m \in S}
                  IN  IF T = S THEN S ELSE Closure(c, T)
 
-\* A consumer that a back-end pulls in while the back-end's own constructor is still running cannot have "its
-\* dependencies fully constructed before it finishes constructing" if it (or something it pulls in, from either end) names
-\* that back-end with module_depends() as well: such contradictory declarations are outside the contract.
-Consistent(c) == \A p \in 1..c.n : \A q \in Range(AntiSeq(c, p)) : \A r \in PullClosure(c, {q}) : p \notin Decl(c, r)
 
 \* everything m depends on, directly or not (m itself only if it lies on a cycle)
 DependsOnPlus(c, m) == Closure(c, Succ(c, m))
@@ -145,7 +141,6 @@ WellFormed(c, log, status) ==
     \* without a constructor there is nobody to call module_depends()
     /\ \A m \in c.noctor : c.deps[m] = <<>> /\ AntiSeq(c, m) = <<>>
     /\ "anti" \in DOMAIN c => DOMAIN c.anti = 1..c.n /\ \A m \in 1..c.n : Range(c.anti[m]) \subseteq (1..c.n) \ {m}
-    /\ Consistent(c)
     /\ \A i \in 1..Len(log) : /\ log[i].e \in Kinds
                               /\ log[i].m \in (IF log[i].e = "running" THEN {0} ELSE 1..c.n)
                               \* an entry point the shared object does not contain cannot have written a line
@@ -171,10 +166,18 @@ A_CtorOnce(c, log) ==
 
 \* "... its dependencies are fully constructed before it finishes constructing ..."
 \* (a dependency without a constructor is constructed as soon as it is loaded and has no event to show it)
+\* (a back-end that pulls its consumer in with module_antidepends() is still inside its own constructor while the consumer -
+\* and whatever the consumer pulls in - is constructed: a dependency whose constructor encloses the module's own cannot be
+\* complete first and is exempt; nothing else is)
+Encloses(log, d, m, i) ==
+    \E j \in 1..(i - 1) : /\ log[j] = Ev("ctor-begin", d)
+                           /\ \E k \in (j + 1)..(i - 1) : log[k] = Ev("ctor-begin", m)
+                           /\ \A q \in j..i : log[q] # Ev("ctor-end", d)
 A_DepsConstructedFirst(c, log) ==
     \A i \in 1..Len(log) :
         log[i].e = "ctor-end" =>
-            \A d \in Range(c.deps[log[i].m]) : HasCtor(c, d) => Before(log, "ctor-end", d, i)
+            \A d \in Range(c.deps[log[i].m]) :
+                HasCtor(c, d) => Before(log, "ctor-end", d, i) \/ Encloses(log, d, log[i].m, i)
 
 \* "... its post-init runs exactly once ..."   (at most once, and never for a module without the entry
 \* point; "at least once" for the modules that have it is A_StartsComplete)
